@@ -7,6 +7,7 @@ ROOT = os.path.dirname(os.path.dirname(os.path.abspath(__file__)))
 RULES = [
     (r"^K/BasicBinaryExp/", "KF-C14-BinaryExp-always-string-kinded"),
     (r"^V/BasicVarptrExpression/", "KF-C05-VARPTR-operand-not-traversed"),
+    (r"^calls/A1=VARPTR", "KF-C05-VARPTR-operand-not-traversed"),
     (r"^T/BasicIfElse/pre=0,elif=[12],else=0", "KF-C02-ELSEIF-chain-without-ELSE-never-exits"),
     (r"^T/BasicIfElse/pre=2", "KF-C05-IfElse-drops-hoisted-calls"),
     (r"^[TV]/BasicReadStatement/", "KF-C05-READ-targets-not-traversed"),
